@@ -23,7 +23,17 @@ var verifOddInts = []int{-9223372036854775808, -1, 0, 1, 4611686018427387904, 92
 
 // VerifC15Endpoints: every registered endpoint, after the signature check
 // passed, with semantically arbitrary parameters: it returns (no panic).
-func VerifC15Endpoints() {
+func VerifC15Endpoints() { verifC15Endpoints(false) }
+
+// VerifC15Sequence: a registration request with arbitrary parameters (with or
+// without a reverse service on its connection), then peer requests by every
+// node: whatever the first request left behind, the follow-ups return.
+func VerifC15Sequence() {
+	verifC15Endpoints(true)
+	verifapi.Reach("c15.followup-returned")
+}
+
+func verifC15Endpoints(followup bool) {
 	w := verifSmallWorld()
 	w.pay.Settle = verifSettleStub(w, "settlefails")
 	w.pay.WithdrawMin = big.NewInt(5)
@@ -31,6 +41,8 @@ func VerifC15Endpoints() {
 	w.db.UpdateNodePeers(w.nodes[0], []string{string(w.nodes[1])}, 0)
 	node := string(w.nodes[0])
 	wal := string(w.wallets[0])
+	// odd shapes, plus well-formed overrides carrying the node's own identity
+	uris := append(append([]string{}, verifOddURIs...), "enode://"+node+"@192.0.2.7:30303", "enode://"+node+"@[::]:30303", "enode://"+node+"@:30303")
 	ctx := context.Background()
 	// the connection the request arrived on matters to connect/host only
 	connCtx := func() context.Context {
@@ -45,6 +57,11 @@ func VerifC15Endpoints() {
 	kindOf := func() string { return []string{"", "geth", "\x00weird"}[verifapi.Choose("kind", 3)] }
 	kind := ""
 	ep := verifapi.Choose("endpoint", 10)
+	if followup {
+		// sequences: a registration request (the only ones that leave a connection-dependent
+		// trace in the pool), then peer requests by every node
+		verifapi.Assume(ep == 0 || ep == 4)
+	}
 	if ep == 0 || ep == 4 {
 		ctx = connCtx()
 	}
@@ -54,7 +71,7 @@ func VerifC15Endpoints() {
 	switch ep {
 	case 0:
 		req := pool.ConnectRequest{VipnodeVersion: "v", Payout: []string{"", wal, "zz"}[verifapi.Choose("payout", 3)],
-			NodeURI:  verifOddURIs[verifapi.Choose("uri", len(verifOddURIs))],
+			NodeURI:  uris[verifapi.Choose("uri", len(uris))],
 			NodeInfo: ethnode.UserAgent{Kind: ethnode.NodeKind(verifapi.Choose("nodekind", 5) - 1), IsFullNode: verifapi.Bool("full"), Network: ethnode.NetworkID(verifapi.Choose("net", 2))}}
 		w.p.Connect(ctx, sigs.SignFor(node, "vipnode_connect", nonce, req), node, nonce, req)
 	case 1:
@@ -79,7 +96,7 @@ func VerifC15Endpoints() {
 		req := pool.ClientRequest{NumHosts: verifOddInts[verifapi.Choose("num", len(verifOddInts))], Kind: kind}
 		w.p.Client(ctx, sigs.SignFor(node, "vipnode_client", nonce, req), node, nonce, req)
 	case 4:
-		req := pool.HostRequest{Kind: kind, Payout: "zz", NodeURI: verifOddURIs[verifapi.Choose("uri", len(verifOddURIs))]}
+		req := pool.HostRequest{Kind: kind, Payout: "zz", NodeURI: uris[verifapi.Choose("uri", len(uris))]}
 		w.p.Host(ctx, sigs.SignFor(node, "vipnode_host", nonce, req), node, nonce, req)
 	case 5:
 		w.p.Ping(ctx)
@@ -95,6 +112,14 @@ func VerifC15Endpoints() {
 		st.Status(ctx)
 	}
 	verifapi.Reach("c15.endpoint-returned")
+	if followup {
+		for _, id := range w.nodes {
+			n := pool.VerifFreshNonce()
+			req := pool.PeerRequest{Num: 2}
+			w.p.Peer(context.Background(), sigs.SignFor(string(id), "vipnode_peer", n, req), string(id), n, req)
+		}
+		verifapi.Quiesce()
+	}
 }
 
 // verifSmallWorld: a fixed two-node world (client n0 linked to wallet w0, host n1 on trial).
